@@ -52,6 +52,11 @@ def to_open_api_3_0(schema: JsonSchema) -> Dict[str, Any]:
     for key in OPEN_API_3_0_UNSUPPORTED:
         result.pop(key, ...)
     isolate_ref(result)
+    if result.get("type") == "null":
+        # OpenAPI 3.0 has no null type
+        del result["type"]
+        result["nullable"] = True
+        result["enum"] = [None]
     if {"type": "null"} in result.get("anyOf", ()):
         result.setdefault("nullable", True)
         result["anyOf"] = [a for a in result["anyOf"] if a != {"type": "null"}]
